@@ -4,6 +4,7 @@ use crate::c05::{exp_char_for, kind_of};
 use crate::cat::cat;
 use crate::lex::*;
 use catalogue::{FLOAT_NAMES, INT_BITS, INT_NAMES, INT_SIGNED};
+use proptest::prelude::*;
 use serde_json::{json, Value};
 use vcore::big::Big;
 use vcore::fmodel::{FormatModel, SYNTAX_FLAG_NAMES};
@@ -78,8 +79,10 @@ pub fn alphabet(m: &FormatModel, o: &OptModel, with_sep: bool) -> Vec<u8> {
     if with_sep && m.digit_separator != 0 {
         a.push(m.digit_separator);
     }
-    // a non-ASCII byte that a careless case fold or digit test maps onto the largest digit
-    for c in [b'n', b'a', b'N', b'i', b'f', b' ', top | 0x80] {
+    // the symbol whose digit value equals the radix (':' after '9', 'G' after 'F', ...): junk that an
+    // off-by-one digit classifier takes for a digit; and a non-ASCII byte that a careless case fold
+    // or digit test maps onto the largest digit
+    for c in [vcore::gen::radix_symbol(r), b'n', b'a', b'N', b'i', b'f', b' ', top | 0x80] {
         a.push(c);
     }
     let mut seen = std::collections::HashSet::new();
@@ -318,6 +321,23 @@ pub fn run(ctx: &Ctx, rep: &mut Report) {
         l.class(&format!("group:{}", cat().entries[j.entry].group));
     });
     rep.exhaustive.push(format!("all strings of length <= {max_len} over the per-format alphabet x {} (format, type) pairs", js.len()));
+    // generated longer inputs: numbers of the format (1-45 digits, so that every multi-digit block boundary of
+    // every integer type is crossed; floats incl. long mantissas and large exponents) with 0-2 structural bytes
+    // (prefix / suffix / exponent letters in both cases, point, signs, '0', bytes next to the digit ranges)
+    // inserted at arbitrary positions
+    run_prop_jobs(
+        rep,
+        ctx,
+        "generated:structured-long",
+        &js,
+        ctx.n(1200, 120_000),
+        |j| {
+            let m = &cat().models[j.entry];
+            long_strategy(m, j.ty, &opt_model_for(m))
+        },
+        |j, c| case_json(j.entry, j.ty, c),
+        |j, c, l| check_one(j.entry, j.ty, c, l),
+    );
     // flag-dependence coverage: for each syntax flag, how many enumerated f64 strings change
     // acceptance when that flag alone is toggled in the reference (measures that each flag is exercised)
     let mut dep = vec![0u64; 18];
@@ -349,6 +369,87 @@ pub fn run(ctx: &Ctx, rep: &mut Report) {
     }
     let depmap: serde_json::Map<String, Value> = SYNTAX_FLAG_NAMES.iter().enumerate().map(|(i, n)| (n.to_string(), json!(dep[i]))).collect();
     rep.extra.insert("strings_whose_acceptance_depends_on_flag(len<=3,f64)".into(), Value::Object(depmap));
+}
+
+fn long_strategy(m: &FormatModel, ty: Ty, o: &OptModel) -> BoxedStrategy<Vec<u8>> {
+    use vcore::gen;
+    let rx = m.radices();
+    let (pt, ec) = (o.decimal_point, o.exponent);
+    let radix = rx.mant;
+    let digits = move |max: usize| {
+        proptest::collection::vec(any::<u8>(), 1..=max).prop_map(move |v| v.into_iter().map(|b| {
+            let d = (b as u32) % radix;
+            let c = digit_char(d as u8);
+            if b & 0x80 != 0 { c.to_ascii_lowercase() } else { c }
+        }).collect::<Vec<u8>>())
+    };
+    let base: BoxedStrategy<Vec<u8>> = match ty {
+        Ty::Float(fi) => {
+            let k = crate::c05::kind_of(fi);
+            prop_oneof![
+                3 => gen::grammar_text(rx, pt, ec).prop_map(|(t, _)| t),
+                2 => gen::fastpath_text(k, rx, pt, ec).prop_map(|(t, _)| t),
+                1 => gen::midpoint_text(k, rx, pt, ec).prop_map(|(t, _)| t),
+                2 => digits(24),
+            ]
+            .boxed()
+        },
+        Ty::Int(ii) => {
+            let bits = catalogue::INT_BITS[ii];
+            let signed = catalogue::INT_SIGNED[ii];
+            prop_oneof![
+                2 => gen::int_value(bits, signed, radix).prop_map(move |v| gen::ref_numeral(v, bits, signed, radix, false)),
+                3 => digits(45),
+                1 => (0usize..40, digits(12)).prop_map(|(z, d)| { let mut v = vec![b'0'; z]; v.extend(d); v }),
+            ]
+            .boxed()
+        },
+    };
+    let mut structural: Vec<u8> = vec![b'+', b'-', b'0', pt, ec];
+    if ec.is_ascii_alphabetic() {
+        structural.push(ec ^ 0x20);
+    }
+    for c in [m.base_prefix, m.base_suffix] {
+        if c != 0 {
+            structural.push(c);
+            structural.push(c);
+            if c.is_ascii_alphabetic() {
+                structural.push(c ^ 0x20);
+            }
+        }
+    }
+    structural.extend(gen::boundary_bytes(rx.mant.max(rx.exp)));
+    let (pfx, sfx) = (m.base_prefix, m.base_suffix);
+    (any::<u8>(), base, proptest::collection::vec((any::<u16>(), any::<u16>()), 0..=2))
+        .prop_map(move |(h, mut t, ins)| {
+            if t.len() > 400 {
+                t.truncate(400);
+            }
+            let mut out = Vec::with_capacity(t.len() + 6);
+            match h & 7 {
+                0 => out.push(b'-'),
+                1 => out.push(b'+'),
+                _ => {},
+            }
+            // the number itself may start with a sign: keep it in front of the prefix
+            if !t.is_empty() && (t[0] == b'-' || t[0] == b'+') && out.is_empty() {
+                out.push(t.remove(0));
+            }
+            if pfx != 0 && h & 0x18 == 0 {
+                out.push(b'0');
+                out.push(if h & 0x20 != 0 && pfx.is_ascii_alphabetic() { pfx ^ 0x20 } else { pfx });
+            }
+            out.extend(t);
+            if sfx != 0 && h & 0xc0 == 0 {
+                out.push(sfx);
+            }
+            for (pos, which) in ins {
+                let p = gen::pick(pos, out.len() + 1);
+                out.insert(p, structural[gen::pick(which, structural.len())]);
+            }
+            out
+        })
+        .boxed()
 }
 
 pub fn replay(_ctx: &Ctx, case: &Value) -> CaseResult {
